@@ -454,7 +454,9 @@ func (w *World) Fetch(t *rapid.T, s *Sess) *imapc.Result {
 		t.Skip("empty view")
 	}
 
-	items := []string{"BODY[]", "BODY.PEEK[]", "(FLAGS)", "(UID FLAGS)", "RFC822", "BODY[TEXT]", "ENVELOPE"}
+	// (BODY[2.1] / BODY[9]: parts the generated messages do not have - such a FETCH may be refused, and a refused
+	// command must leave the view as it was)
+	items := []string{"BODY[]", "BODY.PEEK[]", "(FLAGS)", "(UID FLAGS)", "RFC822", "BODY[TEXT]", "ENVELOPE", "BODY[2.1]", "(FLAGS BODY[9])"}
 	if s.Passive {
 		items = []string{"BODY.PEEK[]", "(FLAGS)", "(UID FLAGS)", "ENVELOPE", "BODY.PEEK[TEXT]", "RFC822.SIZE"}
 	}
